@@ -264,6 +264,7 @@ static wchar_t *env_concat(const wchar_t *a, const wchar_t *b)
 
   wchar_t *r = calloc(size, sizeof(wchar_t));
   if (!r) {
+    SetLastError(ERROR_NOT_ENOUGH_MEMORY);
     return NULL;
   }
 
